@@ -24,6 +24,7 @@ import contextlib
 import hashlib
 import io
 import math
+import os
 import time
 
 import numpy as np
@@ -77,8 +78,9 @@ def spine(i):
 
 
 # part (b): default fraction of the bounds per draw (x, y); z and rz default to the middle
-RING = [(1, 0), (1, 1), (0, 1), (-1, 1), (-1, 0), (-1, -1), (-2, -1), (-2, 0), (-2, 1), (-2, 2), (-1, 2), (0, 2),
-        (1, 2), (2, 2), (2, 1), (2, 0)]
+# (entry 2 repeats entry 0 and entry 4 is out of reach of the first nodes: the default script has rejections too)
+RING = [(1, 0), (1, 1), (1, 0), (0, 1), (-2, -2), (-1, 1), (-1, 0), (-1, -1), (-2, -1), (-2, 0), (-2, 1), (-2, 2), (-1, 2),
+        (0, 2), (1, 2), (2, 2), (2, 1), (2, 0)]
 B_DELTA = 0.125
 
 
@@ -161,10 +163,33 @@ def Pt(t):
     return v
 
 
+_WARM = [False]
+
+
+def warm():
+    """JIT compilation / cache loading of the kernels behind tm() and both distance modes happens here, outside the
+    per-execution wall-clock guard (once per process)."""
+    if _WARM[0]:
+        return
+    from basic_robotics.general import tm
+    from basic_robotics.path_planning import pathplanner as pp
+    r = pp.RRTStar(tm(list(START)))
+    a, b = tm(list(MENU[8][1])), tm(list(MENU[9][1]))
+    for m in (0, 1):
+        r.dmode = m
+        r.distance(a, b)
+    r.addObstruction([0, 0, 0], [1, 1, 1])
+    r.obstruction(pp.PathNode(a), pp.PathNode(b))
+    r.r6_tree_graph.place(pp.PathNode(a))
+    r.r6_tree_graph.getAll()
+    _WARM[0] = True
+
+
 class Runner:
     def __init__(self, cfg):
         from basic_robotics.general import tm
         from basic_robotics.path_planning import pathplanner as pp
+        warm()
         self.tm, self.pp = tm, pp
         self.cfg = cfg
         self.part = cfg["part"]
@@ -356,8 +381,9 @@ def horizon_of(cfg):
 def mk(part, layout, dmode, nnl, budget, seed, **kw):
     cfg = {"part": part, "layout": layout, "dmode": dmode, "nnl": nnl, "budget": budget, "seed": seed}
     cfg.update(kw)
-    tag = "spine" if kw.get("spine") else ("b-" + kw["active"] if part == "b" else "full")
-    cfg["name"] = "%s/%s/%s/d%d/k%d/n%d%s" % (part, tag, layout, dmode, nnl, budget, "/dev%s" % kw["bound"] if kw.get("bound") is not None else "")
+    tag = "spine" if kw.get("spine") else (kw["active"] if part == "b" else "menu")
+    cfg["name"] = "%s/%s/%s/d%d/k%d/n%d/h+%d/%s" % (part, tag, layout, dmode, nnl, budget, kw.get("slack", 3),
+                                                 "all" if kw.get("bound") is None else "dev%d" % kw["bound"])
     return cfg
 
 
@@ -366,47 +392,59 @@ NNLS = [1, 2, 20]
 
 
 def plan(tier, seed):
-    """-> list of (cfg, validate_stride).  cfg['bound'] None = every sequence up to the horizon."""
-    out = []
+    """-> list of (cfg, validate_stride), most valuable first (a time cap skips from the end).
+    cfg['bound'] None = every sequence up to the horizon; 'slack' = horizon - budget (draws), default 3;
+    'seeded' = the VERIF_SEED pose is appended to the menu."""
     thorough = tier == "thorough"
     cross = [(l, d, k) for l in LAYOUT_NAMES for d in (0, 1) for k in NNLS]
-    # (a) full enumeration, budgets 1..2 on the whole cross (seed pose included), budget 3 (thorough: 3 and 4) on a
-    # covering set of the cross: every layout, both distance modes, every neighbour limit
-    for b in (1, 2):
-        for l, d, k in cross:
-            out.append((mk("a", l, d, k, b, seed, seeded=True, bound=None), 1 if b == 1 else 3))
-    cover3 = [("two", 0, 20), ("one", 1, 2), ("terrain", 0, 1), ("none", 1, 20)]
-    if thorough:
-        for l, d, k in cross:
-            out.append((mk("a", l, d, k, 3, seed, bound=None), 7))
-        for l, d, k in cover3[:2]:
-            out.append((mk("a", l, d, k, 4, seed, bound=None), 11))
-    else:
-        for l, d, k in cover3:
-            out.append((mk("a", l, d, k, 3, seed, bound=None, slack=2 if l == "terrain" else 3), 7))
+    cover = [("two", 0, 20), ("none", 1, 2), ("one", 1, 1), ("terrain", 0, 2)]
+    out = []
+    # (a) every sample sequence, budget 1 (horizon 4) and budget 2 on the whole cross
+    for l, d, k in cross:
+        out.append((mk("a", l, d, k, 1, seed, seeded=True, bound=None), 1))
+    for l, d, k in cross:
+        out.append((mk("a", l, d, k, 2, seed, seeded=True, bound=None, slack=1), 1))
+    # (b) default generateTree/findPath, random.uniform scripted per coordinate
+    for l, d, k in cross:
+        out.append((mk("b", l, d, k, 1, seed, active="xy", bound=None, slack=2), 1))
+        out.append((mk("b", l, d, k, 2, seed, active="xy", bound=None, slack=2 if thorough else 1), 3))
+    for l, d, k in cross:
+        out.append((mk("b", l, d, k, 3, seed, active="xyzr", bound=2), 5))
     # (a) deviation-bounded: default = next spine pose, <= 2 departures
-    for b in ((6, 12) if thorough else (5,)):
-        for l, d, k in (cross if thorough else [("two", 0, 2), ("terrain", 1, 20), ("one", 0, 1), ("none", 1, 2)]):
-            out.append((mk("a", l, d, k, b, seed, seeded=True, spine=True, bound=2), 5))
-    # (b) default generateTree/findPath with random.uniform scripted per coordinate
-    for b in ((1, 2, 3) if thorough else (1, 2)):
-        for l, d, k in cross:
-            if b == 3 and not (d == 0 and k == 20):
-                continue
-            out.append((mk("b", l, d, k, b, seed, active="xy", bound=None, slack=1 if b == 3 else 2), 3))
-    for b in ((3, 6) if thorough else (3,)):
-        for l, d, k in cross:
-            out.append((mk("b", l, d, k, b, seed, active="xyzr", bound=2), 5))
-    if thorough:
-        for l in LAYOUT_NAMES:
-            out.append((mk("b", l, 1, 2, 3, seed, active="xyzr", bound=3, slack=2), 7))
+    for l, d, k in (cross if thorough else [("two", 0, 2), ("terrain", 1, 20), ("one", 0, 1), ("none", 1, 2)]):
+        out.append((mk("a", l, d, k, 6 if thorough else 5, seed, seeded=True, spine=True, bound=2), 5))
+    # (a) budget 2 at the full horizon (5 draws), budget 3
+    for l, d, k in (cross if thorough else cover[:2]):
+        # (the two scripted terrain heights multiply every count by 4: one draw less of slack there)
+        out.append((mk("a", l, d, k, 2, seed, bound=None, slack=2 if l == "terrain" else 3), 5))
+    if not thorough:
+        out.append((mk("a", "none", 1, 20, 3, seed, bound=None, slack=1), 5))
+        out.append((mk("a", "one", 1, 2, 3, seed, bound=None, slack=1), 5))
+        out.append((mk("a", "terrain", 0, 1, 3, seed, bound=None, slack=1), 5))
+        out.append((mk("a", "two", 0, 20, 3, seed, bound=None, slack=2), 5))
+        return out
+    for l, d, k in cross:
+        out.append((mk("a", l, d, k, 3, seed, bound=None, slack=1), 5))
+    for l, d, k in cover[:3]:
+        out.append((mk("a", l, d, k, 4, seed, bound=None, slack=1), 7))
+    for l, d, k in [("two", 1, 2), ("terrain", 1, 20), ("one", 0, 1), ("none", 0, 2), ("two", 0, 20), ("terrain", 0, 1),
+                    ("one", 1, 20), ("none", 1, 1)]:
+        out.append((mk("a", l, d, k, 12, seed, seeded=True, spine=True, bound=2), 7))
+    for l, d, k in cross:
+        out.append((mk("b", l, d, k, 6, seed, active="xyzr", bound=2), 7))
+    for l in LAYOUT_NAMES:
+        out.append((mk("b", l, 1, 2, 3, seed, active="xyzr", bound=3, slack=2), 7))
+        out.append((mk("b", l, 0, 20, 3, seed, active="xy", bound=None, slack=1), 7))
+    for l, d, k in cover[1:3] + [("two", 1, 1)]:
+        out.append((mk("a", l, d, k, 3, seed, bound=None, slack=2), 7))
+    out.append((mk("a", "two", 0, 20, 3, seed, bound=None), 11))
     return out
 
 
 def run(ctx):
     ctx.level = "model_checking"
     pl = plan(ctx.tier, ctx.seed)
-    cap = 11.0 * 60 if ctx.tier == "thorough" else 68.0
+    cap = float(os.environ.get("VERIF_C16_CAP_S") or (11.0 * 60 if ctx.tier == "thorough" else 68.0))
     hard = ctx.t0 + cap
     if ctx.deadline:
         hard = min(hard, ctx.deadline)
@@ -419,37 +457,44 @@ def run(ctx):
     nviol = 0
     skipped = []
     growth = {}
+    specs = [{"cfg": cfg, "horizon": horizon_of(cfg), "bound_deviations": cfg.get("bound"), "validate_stride": stride}
+             for cfg, stride in pl]
     with ctx.pool() as pool:
-        for cfg, stride in pl:
-            if time.time() > hard:
-                skipped.append(cfg["name"])
-                continue
-            t1 = time.time()
-            r = choices.explore(pool, MOD, "factory", cfg, horizon_of(cfg), bound_deviations=cfg.get("bound"),
-                                validate_stride=stride, target_tasks=96, deadline=hard, exec_wall=30.0)
-            for k in tot:
-                tot[k] += r[k]
-            for k, v in r["stats"].items():
-                stats[k] = stats.get(k, 0) + v
-            union |= r["keys"]
-            nviol += r["n_violations"]
-            ctx.extend(r["violations"])
-            acc = r["stats"].get("accepted", 0) / max(1, r["stats"].get("draws", 0))
-            runs.append({"cfg": cfg["name"], "horizon": r["horizon"], "bound_deviations": r["bound_deviations"],
-                         "schedules": r["schedules"], "complete": r["complete"], "horizon_hits": r["horizon_hits"],
-                         "distinct_trees": r["states"], "validated": r["traces_validated_against_impl"],
-                         "accepted_fraction_of_draws": round(acc, 3), "exhaustive": r["exhaustive"],
-                         "wall_s": round(time.time() - t1, 2)})
-            if cfg["part"] == "a" and not cfg.get("spine"):
-                g = growth.setdefault("%s/d%d/k%d" % (cfg["layout"], cfg["dmode"], cfg["nnl"]), {})
-                g["budget %d" % cfg["budget"]] = r["states"]
-            if len(samples) < 6 and r["samples"] and (len(runs) % 9 == 1):
-                samples.append(r["samples"][-1])
-            if r["complete"] == 0 and r["n_violations"] == 0:
-                raise HarnessError("exploration %s produced no complete execution (%d horizon hits): vacuous"
-                                   % (cfg["name"], r["horizon_hits"]))
-        ctx.log("CX %d explorations: schedules=%d complete=%d horizon_hits=%d distinct trees=%d (union %d) violations=%d"
-                % (len(runs), tot["schedules"], tot["complete"], tot["horizon_hits"], tot["states"], len(union), nviol))
+        results = choices.explore_many(pool, MOD, "factory", specs, target_tasks=64, deadline=hard, exec_wall=60.0)
+    for (cfg, stride), r in zip(pl, results):
+        if r["schedules"] == 0:
+            skipped.append(cfg["name"])
+            tot["unexplored_subtrees"] += r["unexplored_subtrees"]
+            continue
+        for k in tot:
+            tot[k] += r[k]
+        for k, v in r["stats"].items():
+            stats[k] = stats.get(k, 0) + v
+        union |= r["keys"]
+        nviol += r["n_violations"]
+        ctx.extend(r["violations"])
+        st = r["stats"]
+        runs.append({"cfg": cfg["name"], "horizon": r["horizon"], "bound_deviations": r["bound_deviations"],
+                     "schedules": r["schedules"], "complete": r["complete"], "horizon_hits": r["horizon_hits"],
+                     "distinct_trees": r["states"], "validated": r["traces_validated_against_impl"],
+                     "validate_stride": stride,
+                     "accepted_fraction_uniform_sampler": round(st.get("uniform_accepted", 0) / max(1e-12, st.get("uniform_weight", 0)), 3),
+                     "accepted_fraction_all_draws": round(st.get("accepted", 0) / max(1, st.get("draws", 0)), 3),
+                     "exhaustive": r["exhaustive"], "cpu_s": r["cpu_s"]})
+        if cfg["part"] == "a" and not cfg.get("spine") and r["exhaustive"]:
+            g = growth.setdefault("%s/d%d/k%d" % (cfg["layout"], cfg["dmode"], cfg["nnl"]), {})
+            kb = "budget %d" % cfg["budget"]
+            g[kb] = max(g.get(kb, 0), r["states"])
+        if len(samples) < 6 and r["samples"] and (len(runs) % 23 == 1):
+            samples.append(r["samples"][-1])
+        if r["complete"] == 0 and r["n_violations"] == 0 and r["exhaustive"]:
+            raise HarnessError("exploration %s produced no complete execution (%d horizon hits): vacuous"
+                               % (cfg["name"], r["horizon_hits"]))
+    ctx.log("CX %d explorations (%d skipped on the time cap): schedules=%d complete=%d horizon_hits=%d distinct trees=%d (union %d) "
+            "violations=%d cpu=%.0fs" % (len(runs), len(skipped), tot["schedules"], tot["complete"], tot["horizon_hits"],
+                                         tot["states"], len(union), nviol, sum(x["cpu_s"] for x in runs)))
+    if tot["schedules"] == 0:
+        raise HarnessError("no execution at all finished within the %.0f s cap (machine overloaded or workers failed to start)" % cap)
     if not samples:
         samples = [{"note": "no complete execution", "plan": [c["name"] for c, _ in pl[:3]]}]
     draws = max(1, stats.get("draws", 0))
@@ -462,7 +507,10 @@ def run(ctx):
         "explorations": len(runs),
         "explorations_skipped_on_time_cap": skipped,
         "time_cap_s": cap,
-        "accepted_fraction_of_draws": round(stats.get("accepted", 0) / draws, 4),
+        "accepted_fraction_all_draws": round(stats.get("accepted", 0) / draws, 4),
+        "accepted_fraction_distinct_draw_situations": round(stats.get("fresh_accepted", 0) / max(1, stats.get("fresh_draws", 0)), 4),
+        "accepted_fraction_uniform_sampler": round(stats.get("uniform_accepted", 0) / max(1e-12, stats.get("uniform_weight", 0)), 4),
+        "cpu_s": round(sum(x["cpu_s"] for x in runs), 1),
         "callback_stats": stats,
         "distinct_trees_by_budget": growth,
         "menu": [{"role": m[0], "pose": list(m[1])} for m in MENU] + ([{"role": "seed-generic", "pose": list(seed_pose(ctx.seed))}] if ctx.seed else []),
